@@ -208,18 +208,18 @@ static force_inline void reduce_32(unsigned int satot, unsigned int srtot,
                                    void *p)
 {
     uint32_t *ret = p;
+    /* the sums are signed: kernels may have negative coefficients */
+    int32_t a = (int32_t)(satot + 0x8000) >> 16;
+    int32_t r = (int32_t)(srtot + 0x8000) >> 16;
+    int32_t g = (int32_t)(sgtot + 0x8000) >> 16;
+    int32_t b = (int32_t)(sbtot + 0x8000) >> 16;
 
-    satot = (satot + 0x8000) >> 16;
-    srtot = (srtot + 0x8000) >> 16;
-    sgtot = (sgtot + 0x8000) >> 16;
-    sbtot = (sbtot + 0x8000) >> 16;
+    a = CLIP (a, 0, 0xff);
+    r = CLIP (r, 0, 0xff);
+    g = CLIP (g, 0, 0xff);
+    b = CLIP (b, 0, 0xff);
 
-    satot = CLIP (satot, 0, 0xff);
-    srtot = CLIP (srtot, 0, 0xff);
-    sgtot = CLIP (sgtot, 0, 0xff);
-    sbtot = CLIP (sbtot, 0, 0xff);
-
-    *ret = ((satot << 24) | (srtot << 16) | (sgtot <<  8) | (sbtot));
+    *ret = (((uint32_t)a << 24) | (r << 16) | (g <<  8) | (b));
 }
 
 static force_inline void accum_float(unsigned int *satot, unsigned int *srtot,
